@@ -166,7 +166,7 @@ func canonical(sc RScenario) RScenario {
 
 func (r *runner) doRenew(sc NScenario, label string) {
 	work := filepath.Join(r.f.Work, fmt.Sprintf("c19-renew-%d", r.res.Evaluations))
-	o := runRenew(sc, r.ca, work, 5*time.Second)
+	o := runRenew(sc, r.ca, work, 5*time.Second, r.deadline)
 	c := Case{Kind: "renew", Renew: &sc}
 	for _, v := range monitorRenew(sc, o, r.res.Hit) {
 		r.res.Violate(v.ID, v.What, c)
